@@ -56,6 +56,32 @@ def stage_trivia_corr(ctx: Ctx):
         except AssertionError:
             continue
         (tl, tc), spos, ind = r
+        # the theorems' predicates evaluated on the REAL result (failing-input search at function level)
+        import re as _re
+        top = bound_ln + (1 if bound_col else 0)
+        is_triv = lambda l: _re.fullmatch(r'[ \t]*(\\|#.*)?', l) is not None
+        is_comm = lambda l: _re.match(r'[ \t]*#', l) is not None
+        is_blank = lambda l: _re.fullmatch(r'[ \t]*(\\)?', l) is not None
+        why = None
+        if not (tl <= ln):
+            why = 'text start below the element'
+        elif (tl, tc) != (ln, col) and not (top <= tl):
+            why = 'text start above the bound'
+        elif cm == 'none' and (tl, tc) != (ln, col):
+            why = "comments='none' selected lines above the element"
+        elif (tl, tc) != (ln, col) and not all(is_triv(lines[i]) for i in range(tl, ln)):
+            why = 'a code line inside the selected leading trivia'
+        elif cm == 'block' and (tl, tc) != (ln, col) and not all(is_comm(lines[i]) for i in range(tl, ln)):
+            why = "comments='block' selected a non-comment line"
+        elif spos is not None and not (top <= spos[0] <= tl):
+            why = 'space start outside [bound, text start]'
+        elif spos is not None and not all(is_blank(lines[i]) for i in range(spos[0], tl)):
+            why = 'a non-blank line inside the selected leading space'
+        elif spos is not None and isinstance(sp, int) and not isinstance(sp, bool) and cm != 'all' and tl - spos[0] > sp:
+            why = 'more blank lines selected than space=n allows'
+        if why:
+            ctx.violation(f'leading_trivia|{why}', 'leading_trivia selected lines it may not hand to an edit',
+                          {'lines': lines, 'bound': [bound_ln, bound_col], 'elem': [ln, col], 'comments': cm, 'space': sp, 'result': [list(r[0]), list(spos) if spos else None, ind], 'why': why})
         cmc = {'none': 'CNone', 'all': 'CAll', 'block': 'CBlock'}.get(cm) if isinstance(cm, str) else f'(CLine {cm})'
         spc = 'SFalse' if sp is False else 'STrue' if sp is True else f'(SInt {sp})'
         exp = f'(({tl}, {tc}), {copt(spos[0] if spos else None, str)}, {cbool(ind is not None)})'
